@@ -1,7 +1,7 @@
 (* GENERATED from /repo by /verif/extract - do not edit.
    Gallina translations of the decision functions (DESIGN.md appendix B).
    A site outside the fragment falls back on the reference definition and is flagged [translated_* = false]. *)
-Require Import Verif.Model.Base Verif.Model.Decision Verif.Model.GoSem Verif.Model.TreeRef.
+Require Import Verif.Model.Base Verif.Model.Decision Verif.Model.Dec Verif.Model.GoSem Verif.Model.TreeRef.
 
 (* Entry.newChildLogger  (returns (child, s.items); None = panic) *)
 Definition new_child (as_string_of_any : garg -> option bytes) (rnd_name : bytes) (f_newentry : eref -> list garg -> eref) (s : eref) (s_items : gomapB eref) (args : list garg) : option (eref * gomapB eref) :=
@@ -47,4 +47,21 @@ Definition child_defaults (p_present p_useJSON p_useColor : bool) (p_level g_def
   (js, color, level)
   else (js, color, level).
 Definition translated_child_defaults := true.
+
+(* Entry.withSkip   *)
+Definition with_skip (s : eref) (s_extraFrames : Z) (extraFrames : Z) : eref * Z :=
+  let s_extraFrames := extraFrames in
+  (s, s_extraFrames).
+Definition translated_with_skip := true.
+
+(* Entry.SetSkip   *)
+Definition set_skip (s : eref) (s_extraFrames : Z) (extraFrames : Z) : Z :=
+  let s_extraFrames := extraFrames in
+  s_extraFrames.
+Definition translated_set_skip := true.
+
+(* Entry.WithSkip   *)
+Definition with_skip_child (f_newChild : bytes -> eref) (f_withSkip : eref -> Z -> eref) (s_name : bytes) (s_extraFrames : Z) (extraFrames : Z) : eref :=
+  (f_withSkip (f_newChild ([x63;x2f] ++ s_name ++ [x5b] ++ dec_of_Z extraFrames ++ [x5d])) extraFrames).
+Definition translated_with_skip_child := true.
 
